@@ -145,6 +145,8 @@ def run(ctx):
     if quick:
         l1 = l1[ctx.seed % 2::2] + [x for x in l1 if x.name in ("wav-pcm16", "au-pcm16", "raw-pcm16le", "wav-float")]
         l1 = list({x.name: x for x in l1}.values())
+    from .. import c15extra as _c15extra        # + the rdwr workload through sf_read_raw / sf_write_raw (lean/SfModel/FaultsRaw.lean)
+    l1 = l1 + list({x.name: x for x in _c15extra.l1_raw_reps(quick, ctx.seed)}.values())
     prepare(ctx, l1)
     ff1 = fault_free(ctx, l1, after_open=True)
     jobs = []
